@@ -1,3 +1,4 @@
+(* model: c17-msg *)
 (* drv_msg.ml: runs MsgModel on an op script, one observation line per op, in
    the same text format as harness/wb_msg.c; lines "spec <hdr> <body> <op..>"
    evaluate the extracted MsgSpec.spec_step on the given pair of strings. *)
